@@ -588,3 +588,21 @@ package fpgo
 //@   invariant value-set: fresh(valueMap) && valueMap != *result && valueMap != *setSelf && forallv(y, has(valueMap, y) == exists(i, 0, len(input), input[i] == y))
 //@   invariant keys: forallv(x, has(*result, x) == (has(*setSelf, x) && !(_visited(x) && exists(i, 0, len(input), input[i] == (*setSelf)[x]))))
 //@   invariant values-kept: forallv(x, has(*result, x) ==> (*result)[x] == (*setSelf)[x])
+
+// StreamSetDef.Union (non-empty operand): the keys of both; under a key of the receiver that the operand maps to a non-empty
+// stream, the receiver's stream extended by the operand's (a fresh stream: own items, then the operand's); under every other key
+// the stream object of the receiver, or - for keys only the operand has - of the operand (shared, not copied: Merge copies the
+// map, not the streams).  Nothing that existed is written.
+//@ func (StreamSetDef).Union
+//@   prop C04,C05
+//@   requires streamSetSelf != nil
+//@   ensures nothing-to-add: input == nil || len(SS(input)) == 0 ==> r0 == streamSetSelf
+//@   ensures fresh-result: input != nil && len(SS(input)) > 0 ==> r0 != nil && fresh(r0) && SS(r0) != nil && fresh(SS(r0))
+//@   ensures keys-of-both: input != nil && len(SS(input)) > 0 ==> forallv(x, has(SS(r0), x) == (has(SS(streamSetSelf), x) || has(SS(input), x)))
+//@   ensures extended: input != nil && len(SS(input)) > 0 ==> forallv(x, has(SS(streamSetSelf), x) && SUBTRACTS(x) ==> SS(r0)[x] != nil && fresh(SS(r0)[x]) && len(*SS(r0)[x]) == ite(SS(streamSetSelf)[x] == nil, 0, len(*SS(streamSetSelf)[x])) + len(*SS(input)[x]) && forall(j, 0, len(*SS(input)[x]), (*SS(r0)[x])[ite(SS(streamSetSelf)[x] == nil, 0, len(*SS(streamSetSelf)[x])) + j] == (*SS(input)[x])[j]) && (SS(streamSetSelf)[x] != nil ==> forall(j, 0, len(*SS(streamSetSelf)[x]), (*SS(r0)[x])[j] == (*SS(streamSetSelf)[x])[j])))
+//@   ensures others-shared: input != nil && len(SS(input)) > 0 ==> forallv(x, has(SS(r0), x) && !(has(SS(streamSetSelf), x) && SUBTRACTS(x)) ==> SS(r0)[x] == ite(has(SS(input), x), SS(input)[x], SS(streamSetSelf)[x]))
+//@ func (StreamSetDef).Union loop 0
+//@   invariant result: result != nil && fresh(result) && SS(result) != nil && fresh(SS(result)) && SS(streamSetSelf) == _m
+//@   invariant keys-of-both: forallv(x, has(SS(result), x) == (has(SS(streamSetSelf), x) || has(SS(input), x)))
+//@   invariant extended: forallv(x, _visited(x) && SUBTRACTS(x) ==> SS(result)[x] != nil && fresh(SS(result)[x]) && len(*SS(result)[x]) == ite(SS(streamSetSelf)[x] == nil, 0, len(*SS(streamSetSelf)[x])) + len(*SS(input)[x]) && forall(j, 0, len(*SS(input)[x]), (*SS(result)[x])[ite(SS(streamSetSelf)[x] == nil, 0, len(*SS(streamSetSelf)[x])) + j] == (*SS(input)[x])[j]) && (SS(streamSetSelf)[x] != nil ==> forall(j, 0, len(*SS(streamSetSelf)[x]), (*SS(result)[x])[j] == (*SS(streamSetSelf)[x])[j])))
+//@   invariant others-shared: forallv(x, has(SS(result), x) && !(_visited(x) && SUBTRACTS(x)) ==> SS(result)[x] == ite(has(SS(input), x), SS(input)[x], SS(streamSetSelf)[x]))
